@@ -247,11 +247,20 @@ let query_bnd_kind (s : mesh) (walks : string list) (kn, k) =
              pr "BI %s walk %s : %s\n" kn w (String.concat " " (List.rev !out))) walks
        with UB -> pr "BI %s UB\n" kn)
 
+(* a stored definition that names an entity that does not exist (only outside the valid histories) *)
+let refs_ok (s : mesh) =
+  let nvv = int_of_nat s.nv and nee = List.length s.edges and nff = List.length s.faces in
+  List.for_all (fun (a, b) -> int_of_nat a < nvv && int_of_nat b < nvv) s.edges
+  && List.for_all (List.for_all (fun h -> int_of_nat h < 2 * nee)) s.faces
+  && List.for_all (List.for_all (fun h -> int_of_nat h < 2 * nff)) s.cells
+
 let query (s : mesh) (m : int) (walks : string list) =
+  if not (refs_ok s) then pr "Q skipped: a stored handle is out of range\n" else begin
   query_entity s walks;
   query_circs s m walks;
   query_scalar s;
   List.iter (query_bnd_kind s walks) bnd_kinds
+  end
 
 let () =
   let interactive = Array.length Sys.argv > 1 && Sys.argv.(1) = "-i" in
@@ -279,6 +288,24 @@ let () =
               pr "== %d QueryBC -> Ok -\n" !lineno;
               dump !st;
               query_bnd_kind !st [] ("C", KC)
+          | [ "QueryCF" ] ->
+              (* D15 replay: cf_iter(c); --it; ++it; without the walk-stopping rule *)
+              pr "== %d QueryCF -> Ok -\n" !lineno;
+              dump !st;
+              let s = !st in
+              for x = 0 to int_of_nat (count KC s) - 1 do
+                let l = clist CF s (nat_of_int x) in
+                if l <> [] then
+                  match circ_begin CF l with
+                  | None -> pr "CFB %d : U\n" x
+                  | Some b ->
+                      (match circ_prev CF l b with
+                       | None -> pr "CFB %d : U\n" x
+                       | Some c ->
+                           (match circ_next CF l (z_of_int 1) c with
+                            | None -> pr "CFB %d : %s U\n" x (cobs c)
+                            | Some d -> pr "CFB %d : %s %s\n" x (cobs c) (cobs d)))
+              done
           | [ "QueryD11" ] ->
               (* D11 replay: only the impl-side protocol oracle does something on this line *)
               pr "== %d QueryD11 -> Ok -\n" !lineno;
